@@ -741,11 +741,11 @@ func c30Check(rt *rapid.T, rec *vstat.Rec, env *c30Env, c c30Case) {
 	// 0. binding oracle: the same rows through the raw driver (built first: it also tells whether the case is inside the domain)
 	odb, err := vsql.OpenMem()
 	if err != nil {
-		rt.Skipf("infrastructure: %v", err)
+		c30Bail("infrastructure: %v", err)
 	}
 	defer odb.Close()
 	if _, err := odb.Exec(c.createSQL()); err != nil {
-		rt.Skipf("infrastructure: oracle create: %v", err)
+		c30Bail("infrastructure: oracle create: %v", err)
 	}
 	for r, row := range c.Rows {
 		ph := make([]string, len(row))
@@ -755,12 +755,12 @@ func c30Check(rt *rapid.T, rec *vstat.Rec, env *c30Env, c c30Case) {
 			args = append(args, v.arg())
 		}
 		if _, err := odb.Exec(fmt.Sprintf("INSERT INTO %s VALUES(?,%s)", c.table(), strings.Join(ph, ",")), args...); err != nil {
-			rt.Skipf("infrastructure: oracle insert: %v", err)
+			c30Bail("infrastructure: oracle insert: %v", err)
 		}
 	}
 	wantDump, err := vsql.DumpTable(odb, c.table())
 	if err != nil {
-		rt.Skipf("infrastructure: %v", err)
+		c30Bail("infrastructure: %v", err)
 	}
 	// column affinity can turn a long numeric-looking text into an infinite
 	// REAL; JSON cannot carry ±Inf/NaN, which the property excludes
@@ -794,7 +794,7 @@ func c30Check(rt *rapid.T, rec *vstat.Rec, env *c30Env, c c30Case) {
 	}
 	if err := json.Unmarshal(body, &er); err != nil || er.Error != "" {
 		if strings.Contains(er.Error, "leader") || strings.Contains(er.Error, "not ready") {
-			rt.Skipf("infrastructure: %s", er.Error)
+			c30Bail("infrastructure: %s", er.Error)
 		}
 		fail(&c30Failure{"C30/execute-error", fmt.Sprintf("execute failed: %v %s %.300s", err, er.Error, body)})
 		return
@@ -812,12 +812,12 @@ func c30Check(rt *rapid.T, rec *vstat.Rec, env *c30Env, c c30Case) {
 
 	rdb, err := vsql.Open(env.dbPath())
 	if err != nil {
-		rt.Skipf("infrastructure: %v", err)
+		c30Bail("infrastructure: %v", err)
 	}
 	defer rdb.Close()
 	gotDump, err := vsql.DumpTable(rdb, c.table())
 	if err != nil {
-		rt.Skipf("infrastructure: %v", err)
+		c30Bail("infrastructure: %v", err)
 	}
 	if gotDump != wantDump {
 		// find the first differing cell for the signature
@@ -856,7 +856,7 @@ func c30Check(rt *rapid.T, rec *vstat.Rec, env *c30Env, c c30Case) {
 		}
 		rraw, err := c30RawQuery(rdb, fmt.Sprintf("SELECT %s FROM %s WHERE id=%d", strings.Join(cn, ", "), c.table(), len(c.Rows)))
 		if err != nil {
-			rt.Skipf("infrastructure: raw select: %v", err)
+			c30Bail("infrastructure: raw select: %v", err)
 		}
 		rec.Label("returning")
 		fname := fmt.Sprintf("execute-returning assoc=%v", c.ExecAssoc)
@@ -875,7 +875,7 @@ func c30Check(rt *rapid.T, rec *vstat.Rec, env *c30Env, c c30Case) {
 	q, names, sources := c.selectSQL()
 	raw, err := c30RawQuery(rdb, q)
 	if err != nil {
-		rt.Skipf("infrastructure: raw select: %v", err)
+		c30Bail("infrastructure: raw select: %v", err)
 	}
 	// two complementary forms per case (every flag is seen on and off); which
 	// pair is derived from the case so that all four combinations are covered
@@ -934,7 +934,7 @@ func c30Check(rt *rapid.T, rec *vstat.Rec, env *c30Env, c c30Case) {
 	}
 	praw, err := c30RawQuery(rdb, pq, pargs...)
 	if err != nil {
-		rt.Skipf("infrastructure: raw param select: %v", err)
+		c30Bail("infrastructure: raw param select: %v", err)
 	}
 	assoc := len(c.Params)%2 == 0
 	arr := len(c.Rows)%2 == 0
@@ -964,12 +964,22 @@ func c30Check(rt *rapid.T, rec *vstat.Rec, env *c30Env, c c30Case) {
 func TestVerif_C30_HTTP(t *testing.T) {
 	rec := vstat.New(t, "C30", "http",
 		"rapid: tables of 1-4 columns declared untyped/INTEGER/REAL/TEXT/BLOB, 1-3 rows inserted through POST /db/execute with positional or named JSON parameters (int64 incl. extremes and beyond 2^53, floats in g/e/f notation incl. max/denormal, booleans, null, text incl. non-ASCII, control characters, \\u-escaped, numeric- and hex-looking, X'..' hex blob literals, byte arrays incl. empty, ASCII-looking and invalid-UTF-8 blobs); stored table compared with the raw driver's; columns and +column expressions read back through /db/query or /db/request in array/associative x base64/blob_array forms (two complementary forms per case), INSERT ... RETURNING answers of /db/execute, optional pretty printing, level=strong and GET ?q= variants, and 1-4 query parameters echoed by SELECT ?; one real single-node store + http.Service shared by all cases, table recreated per case; non-trivial = at least two different value kinds stored; distinct by request bodies")
-	env, err := c30NewEnv()
+	var env *c30Env
+	var err error
+	for try := 0; try < 3; try++ { // store start-up can fail on a very busy machine
+		if env, err = c30NewEnv(); err == nil {
+			break
+		}
+		time.Sleep(2 * time.Second)
+	}
 	if err != nil {
-		t.Skipf("infrastructure: %v", err)
+		rec.Label("inconclusive:infrastructure")
+		t.Logf("infrastructure: %v", err)
+		return
 	}
 	defer env.close()
 	rapid.Check(t, func(rt *rapid.T) {
+		defer c30Guard(rec)
 		c := c30GenCase(rt)
 		c30Check(rt, rec, env, c)
 	})
@@ -985,12 +995,22 @@ func TestVerif_C30_HTTP(t *testing.T) {
 func TestVerif_C30_Concurrent(t *testing.T) {
 	rec := vstat.New(t, "C30", "concurrent",
 		"rapid: 4-16 concurrent clients, each sending 15-40 POST /db/query (or /db/request) requests to one http.Service + single-node store; a request echoes the client's own 2-5 parameter values (int64 incl. extremes, floats, text incl. non-ASCII, null, booleans; distinct per client) on 50-600 rows of a recursive CTE, array or associative form; every answer must carry exactly the sender's values on every row; non-trivial = at least 4 clients and 200 answers; distinct by the clients' bodies")
-	env, err := c30NewEnv()
+	var env *c30Env
+	var err error
+	for try := 0; try < 3; try++ { // store start-up can fail on a very busy machine
+		if env, err = c30NewEnv(); err == nil {
+			break
+		}
+		time.Sleep(2 * time.Second)
+	}
 	if err != nil {
-		t.Skipf("infrastructure: %v", err)
+		rec.Label("inconclusive:infrastructure")
+		t.Logf("infrastructure: %v", err)
+		return
 	}
 	defer env.close()
 	rapid.Check(t, func(rt *rapid.T) {
+		defer c30Guard(rec)
 		nw := rapid.IntRange(4, 16).Draw(rt, "workers")
 		iters := rapid.IntRange(15, 40).Draw(rt, "iters")
 		type worker struct {
@@ -1091,4 +1111,24 @@ func TestVerif_C30_Concurrent(t *testing.T) {
 			rt.Fatalf("%s", rec.Violation(first.sig, "%s", first.msg))
 		}
 	})
+}
+
+// c30Inconclusive is raised for infrastructure trouble inside a case; the
+// case is then counted under the label "inconclusive:infrastructure" instead
+// of being skipped (rapid gives up when most cases are skipped).
+type c30Inconclusive struct{ msg string }
+
+func c30Bail(format string, args ...any) {
+	panic(c30Inconclusive{fmt.Sprintf(format, args...)})
+}
+
+// c30Guard is deferred at the top of a case.
+func c30Guard(rec *vstat.Rec) {
+	if r := recover(); r != nil {
+		if _, ok := r.(c30Inconclusive); ok {
+			rec.Label("inconclusive:infrastructure")
+			return
+		}
+		panic(r)
+	}
 }
